@@ -251,6 +251,7 @@ func checkC16(r *Run) {
 			run(c, n, true)
 		}
 	})
+	c16Blocks(r)
 	// method <-> name round trip
 	for m := sipsp.MUndef + 1; m < sipsp.MOther; m++ {
 		if got := sipsp.GetMethodNo(m.Name()); got != m {
